@@ -20,8 +20,9 @@ THEOREMS = ["Privacy.hidden_inherits", "Output.hidden_inherits", "Output.hidden_
             "Output.private_marked_childlist", "Output.private_marked_sidebar", "Output.private_marked_moduleIndex",
             "Output.private_marked_allDocuments", "Output.private_marked_nameIndex", "Output.classIndex_marker",
             "Output.classNodePrivate_sound", "Output.ctxPrivate_of_private",
-            "Output.no_trace_texts_partial", "Output.no_trace_texts_counterexample", "Output.no_trace_named_file_partial",
-            "Output.no_trace_alias_counterexample", "Output.private_marked_undoc_counterexample",
+            "Output.no_trace_texts_partial", "Output.no_trace_texts_counterexample", "Output.no_trace_named_file",
+            "Output.private_marked_undocumentedSummary", "Output.no_trace_alias_counterexample_old",
+            "Output.private_marked_undoc_counterexample_old",
             "Output.no_trace_counterexample_old", "Output.no_trace_counterexample_root_old"]
 RULE = ("same runs as C11 (scenario projects: hidden base of a visible class, hidden module imported from, hidden member "
         "overridden and cross-referenced, private objects at every level and by rule, hidden roots, hidden nested classes "
@@ -50,11 +51,6 @@ ASSUMPTIONS = [
     "zope.interface 'from' notes and extension-provided extra_info are not generated (unguarded in the code, see notes)",
 ]
 PARTIAL = {
-    "Output.no_trace_named_file_partial": "a file named <qualified name>.html exists only for a visible object - or it is the single-root "
-                                          "alias symlink (no_trace_alias_counterexample: hidden single root; open finding "
-                                          "hidden-trace:page-file-alias)",
-    "Output.private_marked": "the 9 listing rows the property names; undoccedSummary.html entries carry no marker at all "
-                             "(private_marked_undoc_counterexample; open finding private-unmarked:undocumented-summary)",
     "Output.no_trace_texts_partial": "the unlinked root nodes of classIndex.html, under: no listed class has an invisible base or an "
                                      "unresolved base expression naming an invisible object (counterexample: "
                                      "no_trace_texts_counterexample; open finding hidden-trace:classindex-root-name). "
